@@ -3,9 +3,10 @@
 
   All statements are about `step : Stream → Op → Stream × Res` (Model/C06.lean), the transcription of
   ConstBitStream / BitStream, for every stream state, every token, every operand; no size bound.
-  Four behaviours of the pinned tree contradict the property; they are transcribed in `step`, the theorems that
-  they touch carry the region as a decidable hypothesis and are named `…_partial`, and each has a `decide`d witness
-  (`finding_…`) showing the property fails inside the region.  Region names = REGIONS in harness/props/C06.py.
+  Four behaviours of the tree this check was built on contradicted the property (negative count in readlist,
+  property assignment that shrinks below pos, short read of a single-length dtype, `s & s` on a ConstBitStream); they
+  were fixed in /repo (known_findings.d/C06.json, status fixed).  `step` transcribes the fixed code, every theorem is
+  stated at full strength, and the four witnesses are kept as regression `example`s at the end.
 -/
 import BitstringModel.Model.C06
 import BitstringModel.Proofs.C06
@@ -15,32 +16,34 @@ open BM
 
 /-! ## "0 ≤ pos ≤ len holds after every operation" -/
 
-/-- Every modelled operation keeps the position valid — outside `readlist_negative_count` and
-    `property_assignment_shrinks`, the two regions in which the pinned tree does not.
-    Full statement (what the property says): the same without `hs`. -/
-theorem inv_step_partial (s : Stream) (op : Op) (hi : Inv s) (hs : invSafe s op = true) :
-    Inv (step s op).1 :=
-  inv_step s op hi hs
+/-- Every modelled operation keeps the position valid. -/
+theorem inv_step (s : Stream) (op : Op) (hi : Inv s) : Inv (step s op).1 :=
+  BM.C06.inv_step_all s op hi
 
-/-- Induction over histories: from a valid (content, pos), every state of every history whose steps avoid the
-    two regions is valid, and the run never stops early. -/
-theorem inv_run_partial (s : Stream) (ops : List Op) (hi : Inv s) (hs : safeRun s ops = true) :
+/-- A newly constructed stream starts at a valid position (a negative `pos=` counts from the end), or the
+    constructor raises. -/
+theorem init_inv (mutable : Bool) (bits : Bits) (p q : Int) (h : initPos bits.length p = .ok q) :
+    Inv ⟨mutable, bits, q⟩ ∧ (q = p ∨ q = p + bits.length) := by
+  unfold initPos at h
+  by_cases hp : p < 0
+  · have e : (if p < 0 then p + (bits.length : Int) else p) = p + bits.length := if_pos hp
+    simp only [e] at h
+    by_cases hq : p + (bits.length : Int) < 0 ∨ p + (bits.length : Int) > bits.length
+    · rw [if_pos hq] at h; cases h
+    · rw [if_neg hq] at h; cases h
+      exact ⟨⟨by simp only; omega, by simp only; omega⟩, Or.inr rfl⟩
+  · have e : (if p < 0 then p + (bits.length : Int) else p) = p := if_neg hp
+    simp only [e] at h
+    by_cases hq : p < 0 ∨ p > bits.length
+    · rw [if_pos hq] at h; cases h
+    · rw [if_neg hq] at h; cases h
+      exact ⟨⟨by simp only; omega, by simp only; omega⟩, Or.inl rfl⟩
+
+/-- Induction over histories: from a valid (content, pos), every state of every history is valid, and the run never
+    stops early (`run` would stop at the first invalid state). -/
+theorem inv_run (s : Stream) (ops : List Op) (hi : Inv s) :
     (∀ o ∈ run s ops, Inv o.1) ∧ (run s ops).length = ops.length :=
-  inv_run' s ops hi hs
-
-/-- Finding: `ConstBitStream('0xffff').readlist([-1])` leaves pos = -1 (and returns 15 bits). -/
-theorem finding_readlist_negative_count :
-    let s : Stream := ⟨false, List.replicate 16 true, 0⟩
-    readlist_negative_count s (.readlist [.count (-1)]) = true ∧ Inv s ∧
-      (step s (.readlist [.count (-1)])).1.pos = -1 := by
-  decide
-
-/-- Finding: `s = BitStream('0xffff'); s.pos = 12; s.uint8 = 3` leaves pos 12 > len 8. -/
-theorem finding_property_assignment_shrinks :
-    let s : Stream := ⟨true, List.replicate 16 true, 12⟩
-    let nb : Bits := [false, false, false, false, false, false, true, true]
-    property_assignment_shrinks s (.setProp (some nb)) = true ∧ Inv s ∧ ¬ Inv (step s (.setProp (some nb))).1 := by
-  decide
+  inv_run' s ops hi
 
 /-! ## reads -/
 
@@ -103,14 +106,12 @@ theorem read_count_short (s : Stream) (n : Int) (hn : 0 ≤ n) (hs : n > s.len -
   rw [step_eq_core s _ (by intro h; cases h)]
   simp only [stepCore, readTok_count_short s n hn hs]
 
-/-- A well-formed fixed-length token needing more bits than remain: ReadError — for every kind except the
-    single-allowed-length `bool` (region `single_length_short_read`).
-    Full statement: the same without `hk`. -/
-theorem read_fixed_short_partial (s : Stream) (k : Kind) (n : Nat) (hk : k ≠ .bool) (ha : allowed k n = true)
+/-- A well-formed fixed-length token (any kind, `bool` included) needing more bits than remain: ReadError. -/
+theorem read_fixed_short (s : Stream) (k : Kind) (n : Nat) (ha : allowed k n = true)
     (hs : (n : Int) * k.mult > s.len - s.pos) :
     step s (.read (.fixed k n)) = (s, .err .read) := by
   rw [step_eq_core s _ (by intro h; cases h)]
-  simp only [stepCore, readTok_fixed_short s k n hk ha hs]
+  simp only [stepCore, readTok_fixed_short s k n ha hs]
 
 /-- The only way reading a self-delimiting code fails is ReadError (truncated code, C10 `truncated_*`). -/
 theorem read_var_fail (s s' : Stream) (vk : VKind) (e : Err) (h : step s (.read (.var vk)) = (s', .err e)) :
@@ -120,13 +121,6 @@ theorem read_var_fail (s s' : Stream) (vk : VKind) (e : Err) (h : step s (.read 
   cases hr : readTok s (.var vk) with
   | error e' => rw [hr] at h; cases h; exact readTok_var_err s vk _ hr
   | ok r => rw [hr] at h; cases h
-
-/-- Finding: `ConstBitStream('0b1', pos=1).read('bool')` raises ValueError, not ReadError. -/
-theorem finding_single_length_short_read :
-    let s : Stream := ⟨false, [true], 1⟩
-    single_length_short_read s (.read (.fixed .bool 1)) = true ∧ Inv s ∧
-      step s (.read (.fixed .bool 1)) = (s, .err .value) := by
-  decide
 
 /-- `peek` = `read` with the position put back. -/
 theorem peek_eq_read_restore (s : Stream) (t : Tok) :
@@ -146,10 +140,9 @@ theorem peeklist_eq_readlist_restore (s : Stream) (ts : List Tok) :
   | error e => rfl
   | ok r => rfl
 
-/-- A successful `readlist` only moves the position, forwards, never past the end — outside
-    `readlist_negative_count`.  Full statement: the same without `hneg`. -/
-theorem readlist_ok_partial (s s' : Stream) (ts : List Tok) (vs : List Val) (hi : Inv s)
-    (hneg : negCountList ts = false) (h : step s (.readlist ts) = (s', .vals vs)) :
+/-- A successful `readlist` only moves the position, forwards, never past the end. -/
+theorem readlist_ok (s s' : Stream) (ts : List Tok) (vs : List Val) (hi : Inv s)
+    (h : step s (.readlist ts) = (s', .vals vs)) :
     ∃ k : Nat, s.pos + k ≤ s.len ∧ s' = { s with pos := s.pos + k } := by
   rw [step_eq_core s _ (by intro h; cases h)] at h
   simp only [stepCore] at h
@@ -159,10 +152,15 @@ theorem readlist_ok_partial (s s' : Stream) (ts : List Tok) (vs : List Val) (hi 
     obtain ⟨vs', np⟩ := r
     rw [hr] at h
     simp only [Prod.mk.injEq] at h
-    have := readList_ok s.bits s.pos ts vs' np hneg hi.1 hi.2 hr
+    have := readList_ok s.bits s.pos ts vs' np hi.1 hi.2 hr
     refine ⟨(np - s.pos).toNat, by unfold Stream.len; omega, ?_⟩
     rw [← h.1]
     congr 1; omega
+
+/-- A negative count anywhere in the list is rejected (ValueError), nothing moves. -/
+theorem readlist_negative_count (s : Stream) (ts : List Tok) (n : Int) (hn : n < 0) (hm : Tok.count n ∈ ts) :
+    step s (.readlist ts) = (s, .err .value) :=
+  readlist_neg s ts n hn hm
 
 /-- A `readlist` that raises leaves the state as it was. -/
 theorem readlist_fail_pos (s s' : Stream) (ts : List Tok) (e : Err) (h : step s (.readlist ts) = (s', .err e)) :
@@ -174,12 +172,11 @@ theorem readlist_fail_pos (s s' : Stream) (ts : List Tok) (e : Err) (h : step s 
   | ok r => rw [hr] at h; cases h
 
 /-- `readlist` without a stretchy token succeeds exactly when the successive single reads succeed, with the same
-    values (pad dropped) and the same final position — outside `readlist_negative_count`.
-    Full statement: the same without `hneg` (a negative count would have to be rejected by both). -/
-theorem readlist_eq_reads_partial (s : Stream) (ts : List Tok) (hi : Inv s)
-    (ho : ∀ t ∈ ts, t.isOpen = false) (hneg : negCountList ts = false) (vs : List Val) (p : Int) :
+    values (pad dropped) and the same final position. -/
+theorem readlist_eq_reads (s : Stream) (ts : List Tok) (hi : Inv s)
+    (ho : ∀ t ∈ ts, t.isOpen = false) (vs : List Val) (p : Int) :
     step s (.readlist ts) = ({ s with pos := p }, .vals vs) ↔ readSeq s ts = .ok (vs, p) :=
-  readlist_eq_reads' s ts hi ho hneg vs p
+  readlist_eq_reads' s ts hi ho vs p
 
 /-- `readto`: on success the position is just after the first occurrence at or after the old position, and the
     returned stream (its own pos 0) is everything from the old position to there. -/
@@ -254,7 +251,7 @@ theorem overwrite_pos_after (s : Stream) (b : Bits) (p : Option Int) (hm : s.mut
     (step s (.overwrite b p)).1
       = { s with bits := s.bits.take q.toNat ++ b ++ s.bits.drop (q.toNat + b.length), pos := q + b.length } := by
   rw [step_eq_core s _ (fun _ => hm)]
-  simp only [stepCore]
+  simp only [stepCore, overwriteAt]
   have : b.isEmpty = false := by cases b <;> simp_all
   simp only [this, Bool.false_eq_true, if_false]
   simp only at hq
@@ -348,18 +345,17 @@ theorem read_values_pos_zero (s s' : Stream) (op : Op) :
   values_pos_zero s s' op
 
 /-- An operation that returns a stream object (copy, `copy.copy`, slice, +, *, ~, <<, >>, &, |, ^, also with the
-    stream itself as operand) leaves the receiver exactly as it was — outside `const_and_or_self`.
-    Full statement: the same without `hr`. -/
-theorem returned_object_frame_partial (s s' : Stream) (op : Op) (r : Ret) (h : step s op = (s', .ret r))
-    (hr : const_and_or_self s op = false) : s' = s :=
-  ret_frame s s' op r h hr
+    stream itself as operand) leaves the receiver exactly as it was. -/
+theorem returned_object_frame (s s' : Stream) (op : Op) (r : Ret) (h : step s op = (s', .ret r)) : s' = s :=
+  ret_frame s s' op r h
 
-/-- Finding: `s & s` on a ConstBitStream at pos 3 returns `s` itself with its pos reset to 0. -/
-theorem finding_const_and_or_self :
-    let s : Stream := ⟨false, List.replicate 8 true, 3⟩
-    const_and_or_self s .andSelf = true ∧ step s .andSelf = ({ s with pos := 0 }, .ret .self)
-      ∧ step s .orSelf = ({ s with pos := 0 }, .ret .self) := by
-  decide
+/-- Property assignment (`s.hex = …`, `s.uint8 = …`): pos = 0 if the length changed, otherwise pos stays. -/
+theorem property_assignment_len_change_pos_zero (s : Stream) (hm : s.mutable = true) (nb : Option Bits) :
+    lenRule s (step s (.setProp nb)) := by
+  rw [step_eq_core s _ (fun _ => hm)]
+  cases nb with
+  | none => simp only [stepCore]; exact lenRule_self ..
+  | some b => simp only [stepCore]; exact lenRule_after ..
 
 /-! ## "pos never affects ==, hash or any non-stream result" -/
 
@@ -374,22 +370,30 @@ theorem pos_irrelevant (s : Stream) (q : Query) (p : Int) :
 /-! ## non-vacuity -/
 
 example : Inv ⟨true, [false, true, false, true, true, false, false, true, true, true], 3⟩ := by decide
-example : safeRun ⟨true, [false, true, false, true, true, false, false, true, true, true], 3⟩
+example : (run ⟨true, [false, true, false, true, true, false, false, true, true, true], 3⟩
     [.read (.fixed .uint 3), .readlist [.count 2, .var .ue], .append [true], .setPos 2, .insert [true, true] none,
-     .delSlice (some 0) (some 1) none, .peek (.stretchy .bin), .andSelf] = true := by decide
+     .delSlice (some 0) (some 1) none, .peek (.stretchy .bin), .andSelf]).map (fun o => o.1.pos)
+    = [6, 9, 11, 2, 4, 0, 0, 0] := by decide
 example : step ⟨false, [false, true, false, true, true, false, false, true, true, true], 3⟩ (.read (.fixed .uint 3))
     = (⟨false, [false, true, false, true, true, false, false, true, true, true], 6⟩, .val (.int 6)) := by decide
 example : step ⟨false, [false, false, true, false], 0⟩ (.readlist [.var .ue]) = (⟨false, [false, false, true, false], 0⟩, .err .read) := by
   decide
 example : readSeq ⟨false, [true, false, true, false, true, true], 0⟩ [.fixed .bool 1, .var .ue, .fixed .pad 1]
     = .ok ([.bool true, .int 1], 5) := by decide
-example : (∀ t ∈ [Tok.fixed .bool 1, .var .ue, .fixed .pad 1], t.isOpen = false)
-    ∧ negCountList [Tok.fixed .bool 1, .var .ue, .fixed .pad 1] = false := by decide
-example : allowed .hex 8 = true ∧ Kind.hex ≠ .bool ∧ ((8 : Nat) : Int) * Kind.hex.mult > (Stream.len ⟨false, [true], 0⟩) - 0 := by
+example : ∀ t ∈ [Tok.fixed .bool 1, .var .ue, .fixed .pad 1], t.isOpen = false := by decide
+example : allowed .hex 8 = true ∧ ((8 : Nat) : Int) * Kind.hex.mult > (Stream.len ⟨false, [true], 0⟩) - 0 := by
   decide
 example : step ⟨true, [true, false, true], 1⟩ (.insert [false, false] none)
     = (⟨true, [true, false, false, false, true], 3⟩, .unit) := by decide
 example : step ⟨false, [true, false, true, true], 0⟩ (.readto [true, true] false)
     = (⟨false, [true, false, true, true], 4⟩, .val (.stream [true, false, true, true] 0)) := by decide
+
+/-! ## regression: the four fixed findings (witness lines of known_findings.d/C06.json) -/
+example : step ⟨false, List.replicate 16 true, 0⟩ (.readlist [.count (-1)])
+    = (⟨false, List.replicate 16 true, 0⟩, .err .value) := by decide
+example : step ⟨true, List.replicate 16 true, 12⟩ (.setProp (some [false, false, false, false, false, false, true, true]))
+    = (⟨true, [false, false, false, false, false, false, true, true], 0⟩, .unit) := by decide
+example : step ⟨false, [true], 1⟩ (.read (.fixed .bool 1)) = (⟨false, [true], 1⟩, .err .read) := by decide
+example : step ⟨false, List.replicate 8 true, 3⟩ .andSelf = (⟨false, List.replicate 8 true, 3⟩, .ret (.new 0)) := by decide
 
 end BM.C06
